@@ -35,16 +35,25 @@ def run(R):
     ops2 = []
     key_static, key_obj = None, {}
     model_note = []
-    for _ in range(150 if quick else 6000):
+    keyed = {}       # object -> a key schedule is in place (encrypt_r on arbitrary bytes is outside the contract: it indexes tables)
+    for _ in range(200 if quick else 6000):
         r = R.rng.random()
-        if r < 0.2:
+        if r < 0.08:
+            # the caller's object may hold anything before setkey_r: only `initialized` has to be cleared (seeded/C17)
+            o = R.rng.randrange(3); keyed[o] = False
+            ops2.append("O %d %s %d %d" % (o, R.rng.choice("frpz"), R.rng.randrange(16), R.rng.randrange(1 << 30)))
+        elif r < 0.2:
             k = R.rng.choice(keys); ops2.append("SK %s %d" % (hx(k), R.rng.randrange(0, 50)))
         elif r < 0.4:
-            k = R.rng.choice(keys); ops2.append("SKR %d %s %d" % (R.rng.randrange(3), hx(k), R.rng.randrange(0, 50)))
+            o = R.rng.randrange(3); keyed[o] = True
+            k = R.rng.choice(keys); ops2.append("SKR %d %s %d" % (o, hx(k), R.rng.randrange(0, 50)))
         elif r < 0.6:
             ops2.append("EN %s %d %d" % (hx(R.rng.choice(blocks)), R.rng.randrange(2), R.rng.randrange(0, 50)))
         elif r < 0.8:
-            ops2.append("ENR %d %s %d %d" % (R.rng.randrange(3), hx(R.rng.choice(blocks)), R.rng.randrange(2), R.rng.randrange(0, 50)))
+            o = R.rng.randrange(3)
+            if keyed.get(o) is False:
+                keyed[o] = True; ops2.append("SKR %d %s %d" % (o, hx(R.rng.choice(keys)), R.rng.randrange(0, 50)))
+            ops2.append("ENR %d %s %d %d" % (o, hx(R.rng.choice(blocks)), R.rng.randrange(2), R.rng.randrange(0, 50)))
         elif r < 0.9:
             m = R.rng.choice(["descrypt", "md5crypt", "bsdicrypt", "nt"])
             ops2.append(CS.crypt_op(R.rng.choice(["r", "st"]), R.rng.randrange(3), rb(R.rng.randrange(0, 12)).replace(b"\0", b"x"), S.CANON[m]))
@@ -62,6 +71,7 @@ def run(R):
         t = op.split(" "); f = fields(line)
         if t[0] == "SK": stat = unhx(t[1])
         elif t[0] == "SKR": objk[t[1]] = unhx(t[2])
+        elif t[0] == "O": objk[t[1]] = None
         elif t[0] == "C" and t[1] == "r":
             # a crypt_r call that gets past validation wipes the object's internal area, including the key schedule
             if fields(line).get("wu") == "0" or fields(line).get("wz") == "1": objk[t[2]] = "wiped"
